@@ -141,7 +141,7 @@ func checkC17(w *World, r *Report) {
 	r.Rule("R17.1", 2, "three-view consistency: a function that writes one of services / groups / allDescriptors performs the corresponding write of the others (insert: services-or-groups and the list on every path; remove: services and the list)")
 	r.Rule("R17.2", 3, "the duplicate test dominates every insertion into services: the test returns AlreadyRegisteredError on its hit edge, and the infallible insert step is only reached after the test succeeded for the same descriptor (or for every element of the same, unmodified batch)")
 	r.Rule("R17.3", 1, "a group only grows by append")
-	r.Rule("R17.4", 3, "atomic rejection: once a registry view has been written on a path of a registration function, no error return is reachable (or every view written is undone)")
+	r.Rule("R17.4", 2, "atomic rejection: once a registry view has been written on a path of a registration function, no error return is reachable (or every view written is undone)")
 	r.Rule("R17.5", 2, "snapshot: every map/slice stored into a provider field is a fresh container, never the collection's own")
 	r.Rule("R17.6", 5, "queries and Build read the views R17.1 keeps in step; option and descriptor validation dominate the first write")
 	r.Rule("R17.7", 5, "every access to the registry views holds collection.mu (R09.1 restricted to collection)")
